@@ -107,7 +107,7 @@ def handleRead (mode : String) (sizes chosen : List Nat) (sel : Option RS) (pol 
     let cbases := (List.range groups.length).map (fun k => (groups.take k).foldl (fun a g => a + g.2) 0)
     let queue : List (Nat × Nat × List (Nat → Bool)) := (groups.zip cbases).map (fun gc =>
       (gc.1.1, gc.1.2, pmasks.map (fun pm i => pm.getD (gc.2 + i) false)))
-    match pushGo bs pol (!pmasks.isEmpty) queue sel ⟨off, lim⟩ with
+    match pushGo bs pol (!pmasks.isEmpty) queue (sel.map CRS.ofRS) ⟨off, lim⟩ with
     | none => "ERR:read"
     | some batches =>
       let ids := batches.flatten
@@ -115,6 +115,58 @@ def handleRead (mode : String) (sizes chosen : List Nat) (sel : Option RS) (pol 
       let specLens := pushBatchLens bs groups specIds
       if ids = specIds ∧ lens = specLens then showBatches ids lens
       else s!"MODEL-SPEC-MISMATCH model={showBatches ids lens} spec={showBatches specIds specLens}"
+
+/-- an operation history on one `RowSelection` (cache-aware model): observers `r` row_count,
+`k` skipped_row_count, `y` selects_any, `t` total_row_count; `c` clone; `h<n>`/`l<n>` split_off
+keeping the returned head / the remaining self; `a:`/`i:`/`u:` and_then / intersection / union
+with an operand.  Every observation is checked against the popcount of the denoted mask. -/
+def runProg (cur : CRS) (ops : List String) (out : List String) : String :=
+  match ops with
+  | [] =>
+    let m := cur.toRS.mask
+    let r := cur.rowCount
+    let k := r.2.skippedRowCount
+    let y := k.2.selectsAny
+    let fin := s!"r={r.1} k={k.1} y={showBool y} {showRS cur.toRS}"
+    if r.1 = Spec.countTrue m ∧ k.1 = m.length - Spec.countTrue m ∧ y = m.any id then
+      " ".intercalate (out.reverse ++ [fin])
+    else s!"MODEL-SPEC-MISMATCH stale-count {fin}"
+  | op :: rest =>
+    let m := cur.toRS.mask
+    let arg := (op.drop 1).toString
+    match op.take 1 |>.toString with
+    | "r" =>
+      let r := cur.rowCount
+      if r.1 = Spec.countTrue m then runProg r.2 rest (s!"r={r.1}" :: out)
+      else s!"MODEL-SPEC-MISMATCH stale-count r={r.1}"
+    | "k" =>
+      let r := cur.skippedRowCount
+      if r.1 = m.length - Spec.countTrue m then runProg r.2 rest (s!"k={r.1}" :: out)
+      else s!"MODEL-SPEC-MISMATCH stale-count k={r.1}"
+    | "y" =>
+      let y := cur.selectsAny
+      if y = m.any id then runProg cur rest (s!"y={showBool y}" :: out)
+      else s!"MODEL-SPEC-MISMATCH stale-count y={showBool y}"
+    | "t" => runProg cur rest (s!"t={cur.toRS.totalRowCount}" :: out)
+    | "c" => runProg cur rest out
+    | "h" => match arg.toNat? with
+      | some n => runProg (cur.splitOff n).1 rest out
+      | none => "bad-op"
+    | "l" => match arg.toNat? with
+      | some n => runProg (cur.splitOff n).2 rest out
+      | none => "bad-op"
+    | "a" => match parseOperand (arg.drop 1).toString with
+      | some o => match cur.andThen (CRS.ofRS o) with
+        | some r => runProg r rest out
+        | none => "PANIC"
+      | none => "bad-op"
+    | "i" => match parseOperand (arg.drop 1).toString with
+      | some o => runProg (cur.intersection (CRS.ofRS o)) rest out
+      | none => "bad-op"
+    | "u" => match parseOperand (arg.drop 1).toString with
+      | some o => runProg (cur.union (CRS.ofRS o)) rest out
+      | none => "bad-op"
+    | _ => "bad-op"
 
 def handle (toks : List String) : String :=
   match toks with
@@ -199,13 +251,17 @@ def handle (toks : List String) : String :=
       let r := maskToSelectors m
       check (Spec.mask r) m (showSels r)
     | _ => "bad-op"
+  | ["prog", a, ops] =>
+    match parseOperand a with
+    | some a => runProg (CRS.ofRS a) (if ops = "-" then [] else ops.splitOn ";") []
+    | none => "bad-op"
   | ["read", mode, sizes, _pg, _idx, chosen, sel, pol, _preds, pmasks, off, lim, bs, _proj] =>
     match parseList String.toNat? sizes, parseList String.toNat? chosen,
           (if sel = "-" then some none else (parseOperand sel).map some),
           parsePolicy pol, (if pmasks = "-" then some [] else (pmasks.splitOn ";").mapM (fun m => if m = "e" then some [] else parseBits m)),
           parseOptNat off, parseOptNat lim, bs.toNat? with
     | some sizes, some chosen, some sel, some pol, some pmasks, some off, some lim, some bs =>
-      if mode = "sync" ∨ mode = "push" then handleRead mode sizes chosen sel pol pmasks off lim bs
+      if mode = "sync" ∨ mode = "push" ∨ mode = "async" then handleRead mode sizes chosen sel pol pmasks off lim bs
       else "bad-op"
     | _, _, _, _, _, _, _, _ => "bad-op"
   | _ => "bad-op"
